@@ -520,7 +520,15 @@ class ExprMixin:
                 return [(st, mkS(f"(str.++ {asS(la)} {asS(lb)})"))]
             if ka in ("list", "tuple") and kb == ka:
                 ctor = "v_list" if ka == "list" else "v_tuple"
-                return [(st, Val(f"({ctor} (seq.++ (seqof {asV(la)}) (seqof {asV(lb)})))", kind=ka, fresh=TRUE))]
+                cat = f"({ctor} (seq.++ (seqof {asV(la)}) (seqof {asV(lb)})))"
+                r = self.fresh_val("cat", kind=ka)
+                r.fresh = TRUE
+                q = fresh_name("q")
+                sa, sb, sr = f"(seqof {asV(la)})", f"(seqof {asV(lb)})", f"(seqof {r.t})"
+                st.assume(Eq(r.t, cat), fact=True)
+                st.assume(f"(= (seq.len {sr}) (+ (seq.len {sa}) (seq.len {sb})))", fact=True)
+                st.assume(f"(forall (({q} Int)) (! (=> (and (<= 0 {q}) (< {q} (seq.len {sr}))) (= (seq.nth {sr} {q}) (ite (< {q} (seq.len {sa})) (seq.nth {sa} {q}) (seq.nth {sb} (- {q} (seq.len {sa})))))) :pattern ((seq.nth {sr} {q}))))", fact=True)
+                return [(st, r)]
             if ka == "int" and kb == "int":
                 return [(st, mkI(f"(+ {asI(la)} {asI(lb)})"))]
         if isinstance(op, ast.Sub) and ka == "int" and kb == "int":
@@ -648,6 +656,8 @@ class ExprMixin:
             return self.call_function(st, fn, [base, idx], {}, node, selfcls=cls)
         lb, li = self.lift(base), self.lift(idx)
         tb = asV(lb)
+        if isinstance(idx, PyC) and isinstance(idx.obj, str) and tb in self.dict_known and idx.obj in self.dict_known[tb]:
+            return [(st, self.dict_known[tb][idx.obj])]
         hint = None
         try:
             src = ast.unparse(node)
